@@ -157,6 +157,10 @@ def dataflow(draw, start, horizon, max_src=3, max_nodes=7, structs=True, subs=Tr
             cand = list(ports)
             nin = draw(st.integers(1, min(3, len(cand))))
             ins = [draw(st.sampled_from(cand)) for _ in range(nin)]
+            if nin >= 2 and draw(st.integers(0, 5)) == 0:
+                # one input (never the only active one) read passively: its producer must still be ranked before this node
+                j_ = draw(st.integers(1, nin - 1))
+                ins[j_] = {"r": ins[j_], "passive": True}
             stmts.append({"id": f"n{i}", "op": "node", "ins": ins, "out": "TS[int]", "fn": draw(st.sampled_from(["sum", "sum", "acc"])),
                           "coef": [draw(st.integers(1, 3)) for _ in ins], "bias": draw(st.integers(0, 5))})
             ports[f"n{i}"] = "TS[int]"
